@@ -322,54 +322,65 @@ def tokOfConj (v : VT) : ConjRes → Tok
 /-- the bracketed realization of a morphoError -/
 def bracketed (lemma : Str) : Str := bracket lemma
 
+/-- the auxiliary of a compound tense and the gender / number its participle takes:
+    `aux = V("avoir"); aux.peng = self.peng; aux.taux = {t, aux of self}`, then « être » for a reflexive verb (with
+    `pat = ["réfl"]`) or a verb whose `aux` is "êt" (participle agrees with the subject), else « avoir » (participle
+    agrees with a `cod` seen before the verb, except for « être ») -/
+def compoundAux (v : VT) (isRefl : Bool) (ta : Tense) (avoirLex etreLex : VerbLex) : VT × Gd × Nb :=
+  let aux0 : VT := { mkV avoirLex ta v.pe v.n v.g with aux := v.aux }
+  if isRefl then ({ aux0.setLemma etreLex with pat := some [reflStr] }, v.g, v.en)
+  else if v.aux = etStr then (aux0.setLemma etreLex, v.g, v.en)
+  else
+    let gn : Gd × Nb := if v.lex.lemma ≠ etre then (match v.cod with | some x => x | none => (.m, .s)) else (.m, .s)
+    (aux0, gn.1, gn.2)
+
+/-- the terminals a compound tense returns: the auxiliary (it takes over `neg2` and `lier`), the pronoun found next
+    to a `lier` verb, the verb itself realized as its participle; and whether that pronoun was consumed -/
+def compoundToks (v aux : VT) (ra : ConjRes) (form : Str) (nextPro : Option Tok) : List Tok × Bool :=
+  let auxV : VT := { aux with neg2 := v.neg2, lier := v.lier }
+  let me : VT := { v with neg2 := none, lier := false }
+  let auxTok := tokOfConj auxV ra
+  if v.lier then
+    match nextPro with
+    | some p => ([auxTok, p, .v me form], true)
+    | none => ([auxTok, .v me form], false)
+  else ([auxTok, .v me form], false)
+
+/-- is the verb defective at the person of the auxiliary (`some true`), or is the cell out of range (`none`)? -/
+def compoundDefective (v : VT) (ta : Tense) : Option Bool :=
+  match ta with
+  | .b => some false
+  | _ => match (v.lex.cells ta)[cellIdx v.epe v.en]? with
+    | some none => some true
+    | some (some _) => some false
+    | none => none
+
+/-- compound-tense branch of `TerminalFr.conjugate` -/
+def conjCompound (v : VT) (refl : Bool) (nextPro : Option Tok) (ta : Tense) : Except Crash (List Tok × Bool) :=
+  match compoundDefective v ta with
+  | none => .error .indexError
+  | some true => .ok ([.qv v.lex.lemma v.lier], false)
+  | some false => do
+    let avoirLex ← auxLex avoir
+    let etreLex ← auxLex etre
+    let isRefl ← isReflexive v refl
+    let a := compoundAux v isRefl ta avoirLex etreLex
+    -- aux.realization = aux.realize()
+    let ra ← conjSimple a.1 refl
+    -- pp = V(self.lemma).g(g).n(n).t("pp"), realized on its own
+    let rp ← conjSimple { mkV v.lex .pp with pg := some a.2.1, pn := some a.2.2 } refl
+    let form := match rp with
+      | .form f => f
+      | .morpho => bracketed v.lex.lemma
+    pure (compoundToks v a.1 ra form nextPro)
+
 /-- `TerminalFr.conjugate`. `nextPro`: the pronoun the compound branch finds next to a `lier` verb (phrase: the next
     element of the VP if it is a Pro; dependency: the first dependent whose terminal is a Pro). Returns the tokens
     and whether that pronoun was consumed. -/
 def conjugate (v : VT) (refl : Bool) (nextPro : Option Tok) : Except Crash (List Tok × Bool) :=
   if ¬ v.lex.hasTab then .ok ([.qv v.lex.lemma v.lier], false) else
   match v.t.auxTense with
-  | none => do
-    let r ← conjSimple v refl
-    pure ([tokOfConj v r], false)
-  | some ta => do
-    -- defective at the person of the auxiliary?
-    let cells := v.lex.cells ta
-    let defective := match ta with
-      | .b => false
-      | _ => match cells[cellIdx v.epe v.en]? with
-        | some none => true
-        | _ => false
-    let oob := match ta with
-      | .b => false
-      | _ => (cells[cellIdx v.epe v.en]?).isNone
-    if oob then throw .indexError
-    if defective then return ([.qv v.lex.lemma v.lier], false)
-    let avoirLex ← auxLex avoir
-    let etreLex ← auxLex etre
-    let isRefl ← isReflexive v refl
-    -- aux = V("avoir"); aux.peng = self.peng; aux.taux = {t, aux of self}
-    let aux0 : VT := { mkV avoirLex ta v.pe v.n v.g with aux := v.aux }
-    let (aux, g, n) : VT × Gd × Nb :=
-      if isRefl then ({ aux0.setLemma etreLex with pat := some [reflStr] }, v.g, v.en)
-      else if v.aux = etStr then (aux0.setLemma etreLex, v.g, v.en)
-      else
-        let gn : Gd × Nb := if v.lex.lemma ≠ etre then (match v.cod with | some x => x | none => (.m, .s)) else (.m, .s)
-        (aux0, gn.1, gn.2)
-    -- aux.realization = aux.realize()
-    let ra ← conjSimple aux refl
-    -- pp = V(self.lemma).g(g).n(n).t("pp"), realized on its own
-    let pp : VT := { mkV v.lex .pp with pg := some g, pn := some n }
-    let rp ← conjSimple pp refl
-    let form := match rp with
-      | .form f => f
-      | .morpho => bracketed v.lex.lemma
-    let auxV : VT := { aux with neg2 := v.neg2, lier := v.lier }
-    let me : VT := { v with neg2 := none, lier := false }
-    let auxTok := tokOfConj auxV ra
-    if v.lier then
-      match nextPro with
-      | some p => pure ([auxTok, p, .v me form], true)
-      | none => pure ([auxTok, .v me form], false)
-    else pure ([auxTok, .v me form], false)
+  | none => (conjSimple v refl).map (fun r => ([tokOfConj v r], false))
+  | some ta => conjCompound v refl nextPro ta
 
 end Pyrealb.ClauseFr
